@@ -256,6 +256,18 @@ func main() {
 				ctx.Violation(sig+":"+c.Name, d)
 			}
 		}
+		sp.ScalarSweeps(j, 8, 0x0FFFFFFF, func(c sp.SweepCase) {
+			in := sp.Build(c.Cfg, c.Al, c.Ops)
+			ctx.Eval()
+			ctx.Add("sweep_"+c.Name, 1)
+			sig, what := strictCheck(in, c.Cfg)
+			if sig != "" && ctx.SigCount(sig+":"+c.Name) < 20 {
+				d := sp.HistoryDetail(c.Cfg, "sweep", c.Ops, c.Al, what)
+				d["sweep"] = c.Name
+				d["sweep_value"] = c.Val
+				ctx.Violation(sig+":"+c.Name, d)
+			}
+		})
 	})
 	const parts = 32
 	ctx.Jobs("vlq", parts, func(j int) {
